@@ -46,4 +46,5 @@ CONF = dict(
  'event with the extracted model, evaluating the property oracle on what the implementation did'),
     timeout_quick=600,
     timeout_thorough=3000,
+    min_cases={'sync.drift': 1800, 'sync.extreme': 1, 'sync.run': 2412},
 )
